@@ -271,6 +271,47 @@ pub fn config_case(sender: &'static str, trader_kind: u8, routes_kind: u8) -> Ca
     }
 }
 
+/// Treasury instantiation: the admin is the designated account (or the instantiator when none is designated), the trader
+/// likewise, and no nomination is pending: nobody can "accept" an ownership nobody transferred (C12 / C13).
+pub fn instantiate_case(admin_kind: u8, trader_kind: u8) -> Case {
+    Case {
+        name: format!("tre:instantiate:a{admin_kind}:t{trader_kind}"),
+        run: Box::new(move |f: &Filter, _mw: bool| {
+            let who = Who::new(false);
+            let sender = who.ex_admin.clone();
+            let pick = |k: u8| match k {
+                0 => None,
+                1 => Some(sender.clone()),
+                _ => Some(who.u3.clone()),
+            };
+            let (admin_arg, trader_arg) = (pick(admin_kind), pick(trader_kind));
+            let mut deps = mock_dependencies();
+            let msg = InstantiateMsg { admin: admin_arg.clone(), trader: trader_arg.clone(), allowed_swap_routes: vec![vec![hop(1, A, B)]] };
+            let e = env(&who);
+            let r = symcore::catch(|| treasury::contract::instantiate(deps.as_mut(), e, info(&sender), msg).map_err(|e| e.to_string()));
+            finish(f, &r);
+            claim(f, "C13:treasury instantiation with well-formed addresses succeeds", matches!(r, Ok(Ok(_))));
+            if !matches!(r, Ok(Ok(_))) {
+                return;
+            }
+            let want_admin = admin_arg.unwrap_or(sender.clone());
+            let want_trader = trader_arg.unwrap_or(sender.clone());
+            let admin = treasury::state::ADMIN.get(deps.as_ref()).ok().flatten().map(|a| a.to_string());
+            let st = treasury::state::STATE.load(&deps.storage).expect("SYMX-HARNESS: treasury state");
+            let cfg = treasury::state::CONFIG.load(&deps.storage).expect("SYMX-HARNESS: treasury config");
+            claim(f, "C12:a new treasury has the designated admin (the instantiator when none is designated) and no pending nomination or lock", admin.as_deref() == Some(want_admin.as_str()) && st.pending_owner.is_none() && st.owner_transfer_min_time.is_none());
+            claim(f, "C13:a new treasury has the designated trader (the instantiator when none is designated) and the supplied allow-list", cfg.trader.as_str() == want_trader && cfg.allowed_swap_routes == vec![vec![hop(1, A, B)]]);
+            // nobody can accept an ownership that was never transferred, at any time
+            for who_tries in [who.u3.clone(), sender.clone(), who.admin.clone()] {
+                let r = exec(&mut deps, &who, &who_tries, ExecuteMsg::AcceptOwnership {});
+                claim(f, "C12:AcceptOwnership on a new treasury is refused for everybody", !matches!(r, Ok(Ok(_))));
+            }
+            let admin2 = treasury::state::ADMIN.get(deps.as_ref()).ok().flatten().map(|a| a.to_string());
+            claim(f, "C12:failed acceptance leaves the admin alone", admin2.as_deref() == Some(want_admin.as_str()));
+        }),
+    }
+}
+
 /// Treasury migrate: version gate (C18's treasury anchor) and no panic (C16).
 pub fn migrate_case(name: &'static str, ver: &'static str) -> Case {
     Case {
@@ -403,6 +444,11 @@ pub fn cases(tier: &str) -> Vec<Case> {
                     v.push(swap_case(ln, routes.clone(), cand.clone(), exact_in, "other", endpoint));
                 }
             }
+        }
+    }
+    for ak in 0..3u8 {
+        for tk in 0..3u8 {
+            v.push(instantiate_case(ak, tk));
         }
     }
     for s in ["admin", "trader", "other"] {
